@@ -672,7 +672,23 @@ class PowerExpression(BinaryExpression):
         return np.power(one, two)
 
     def __str__(self) -> str:
-        return "{}{}{}".format(self.left, self.with_color(self.name), self.right)
+        left, right = f"{self.left}", f"{self.right}"
+        # The base binds tighter than a leading minus, an implicit "4x" product or
+        # another power, so those keep explicit grouping: (-x)^2, (4x)^2, (x^2)^3
+        compact_product = isinstance(
+            self.left, MultiplyExpression
+        ) and not left.startswith("(")
+        if compact_product or isinstance(
+            self.left, (NegateExpression, PowerExpression)
+        ):
+            left = f"({left})"
+        # The exponent is read as a single unary expression: x^(y^2), x^(-(a * b))
+        negated_binary = isinstance(self.right, NegateExpression) and isinstance(
+            self.right.get_child(), BinaryExpression
+        )
+        if negated_binary or isinstance(self.right, PowerExpression):
+            right = f"({right})"
+        return "{}{}{}".format(left, self.with_color(self.name), right)
 
 
 class ConstantExpression(MathExpression):
